@@ -5,6 +5,7 @@ import GraphiqModel.Model.StabTableau
 import GraphiqModel.Model.Convert
 import GraphiqModel.Model.CanonCheck
 import GraphiqModel.Model.Echelon
+import GraphiqModel.Model.OverlapSpec
 import Driver.Proto
 import Driver.CmdTab
 namespace Graphiq.CmdStab
@@ -109,6 +110,13 @@ def same (a : Args) : String :=
 
 /-- stab.echelon n= x= z= r=: the executable echelon-form predicate (post-condition proved of the model's `rref`, C03) -/
 def echelon (a : Args) : String := s!"ok ech={b01 (stabOf a).echelonB}"
+/-- stab.overlap an= ax= az= ar= bn= bx= bz= br=: the brute-force executable specification of the group-level overlap
+    (`orthB ↔ Orth` and the membership test of `commonCount` are proved exact, Proofs/InnerProductExec.lean); n ≤ 4 only -/
+def overlap (a : Args) : String :=
+  let ta := (stabOf a "a").norm
+  let tb := (stabOf a "b").norm
+  if ta.n ≠ tb.n ∨ ta.n > 4 then "err value"
+  else s!"ok orth={b01 (ta.orthB tb)} common={ta.commonCount tb}"
 
 def dispatch (cmd : String) (a : Args) : Option String :=
   match cmd with
@@ -125,6 +133,7 @@ def dispatch (cmd : String) (a : Args) : Option String :=
   | "stab.insert" => some (insert a)
   | "stab.conv" => some (conv a)
   | "stab.same" => some (same a)
+  | "stab.overlap" => some (overlap a)
   | _ => none
 
 end Graphiq.CmdStab
